@@ -8,7 +8,7 @@ T = "src/state/txset.rs"
 
 
 COMMON_INV = """next_state.coins.wf() && (is_tip_906 ==> counts_ok(next_state.coins@)) && is_tip_906 == spec_tip906(next_state)
-                && origin_ok(next_state.coins@.coins)
+                && origin_ok(next_state.coins@.coins) && (!is_tip_906 ==> next_state.coins@.counts == st0.coins@.counts)
                 && next_state.network == st0.network && next_state.height == st0.height && next_state.history == st0.history
                 && next_state.fee_multiplier == st0.fee_multiplier && next_state.dosc_speed == st0.dosc_speed
                 && next_state.pools == st0.pools && next_state.stakes == st0.stakes
@@ -24,32 +24,7 @@ FEE2 = """next_state.fee_pool.0 as int == st0.fee_pool.0 + fsum(txx.take(%s), mi
           && next_state.fee_pool.0 + next_state.tips.0 == st0.fee_pool.0 + st0.tips.0 + fsum(txx.take(%s), fee_of())
           && st0.fee_pool.0 + st0.tips.0 + fsum(txx, fee_of()) <= u128::MAX
           && (forall|q: int| 0 <= q < %s ==> (#[trigger] txx[q]).fee.0 >= spec_base_fee(txx[q], st0.fee_multiplier))"""
-CNS = Fn(A, "create_next_state", home="C02", implicit_props=("C09", "C02", "C05"),
-    requires=[
-        C("wf", "next_state.coins.wf() && (is_tip_906 ==> counts_ok(next_state.coins@)) && is_tip_906 == spec_tip906(next_state) && origin_ok(next_state.coins@.coins)"),
-        C("wellformed", "forall|q: int| 0 <= q < transactions@.len() ==> spec_well_formed(#[trigger] transactions@[q])"),
-        C("rel", "rel_consistent(transactions@, relevant_coins@)"),
-        C("fees_fit", "next_state.fee_pool.0 + next_state.tips.0 + fsum(transactions@, fee_of()) <= u128::MAX",
-          note="C09 envelope: fee pool + tips + the batch's fees fit in u128 (MEL supply <= 2^127)"),
-    ],
-    ensures=[
-        C("coins", "res is Ok ==> batch_coins(next_state.coins@.coins, res->Ok_0.coins@.coins, transactions@, relevant_coins@)", "C02", "C01", "C19", "C03"),
-        C("frame", """res is Ok ==> res->Ok_0.network == next_state.network && res->Ok_0.height == next_state.height && res->Ok_0.history == next_state.history
-               && res->Ok_0.fee_multiplier == next_state.fee_multiplier && res->Ok_0.dosc_speed == next_state.dosc_speed
-               && res->Ok_0.pools == next_state.pools && res->Ok_0.stakes == next_state.stakes""", "C02", "C05", "C17"),
-        C("min_fee", "res is Ok ==> forall|q: int| 0 <= q < transactions@.len() ==> (#[trigger] transactions@[q]).fee.0 >= spec_base_fee(transactions@[q], next_state.fee_multiplier)", "C05"),
-        C("fee_split", """res is Ok ==> res->Ok_0.fee_pool.0 as int == next_state.fee_pool.0 + fsum(transactions@, min_fee_of(next_state.fee_multiplier))
-               && res->Ok_0.tips.0 as int == next_state.tips.0 + fsum(transactions@, tip_of(next_state.fee_multiplier))""", "C05", "C01"),
-        C("fee_reject", """res is Err && res->Err_0 is InsufficientFees ==> exists|q: int, m: u128| 0 <= q < transactions@.len()
-               && (#[trigger] transactions@[q]).fee.0 < #[trigger] spec_base_fee(transactions@[q], m) && (res->Err_0->InsufficientFees_0).0 == spec_base_fee(transactions@[q], m)""", "C05", char=True,
-          note="a batch is refused for fees only if some transaction pays strictly less than its minimum fee (the multiplier is existentially quantified: Verus loses the initial value of a `mut` parameter inside later loops)"),
-        C("txs", "res is Ok ==> forall|h: TxHash| #[trigger] res->Ok_0.transactions@.contains_key(h) <==> (next_state.transactions@.contains_key(h) || in_batch(transactions@, transactions@.len() as int, h))", "C02", "C06"),
-        C("faucets", """res is Ok ==> forall|q: int| 0 <= q < transactions@.len() && (#[trigger] transactions@[q]).kind == TxKind::Faucet ==>
-               !(next_state.network == NetID::Mainnet && !is_grandfathered(spec_txhash(transactions@[q])))
-               && (!is_grandfathered(spec_txhash(transactions@[q])) ==> !next_state.coins@.coins.contains_key(spec_marker(spec_txhash(transactions@[q]))))""", "C19"),
-        C("wf", "res is Ok ==> res->Ok_0.coins.wf() && origin_ok(res->Ok_0.coins@.coins)", "C20"),
-        C("counts", "res is Ok && is_tip_906 ==> counts_ok(res->Ok_0.coins@)", "C20"),
-    ],
+CNS = Fn(A, "create_next_state", home="C02", implicit_props=("C09", "C02", "C05"), **ap_create_next_state(),
     rewrites=[("R4", 1)],
     injects=[
         Inject("entry", """let ghost st0 = next_state; let ghost c0 = next_state.coins@.coins; let ghost rel = relevant_coins@; let ghost txx = transactions@;
